@@ -18,6 +18,20 @@ def fld(name, bits=8):
     return S(bits, 'joy.' + name, ('field', OW, name, ty))
 
 
+def _holds17(m, f, w):
+    """value of BDD node f under the (partial, zero-extended) assignment w of a witness"""
+    from .. import valsem
+    return valsem.eval_bv(m, _BVone(m, f), w) & 1
+
+
+class _BVone:
+    def __init__(self, m, f):
+        self.m, self.b = m, [f]
+
+    def __len__(self):
+        return 1
+
+
 def run(ctx, chk):
     chk.rule('C17.1', 'D', 'press and release map each button to the same group and line bit as the hardware matrix '
              '(press ORs the bit in, release clears exactly that bit)', floor=16)
@@ -27,7 +41,8 @@ def run(ctx, chk):
              'whatever the other lines do, and not when no line can have fallen', floor=2)
     chk.rule('C17.4', 'D', 'reported once: get_interrupt reads and clears the latch, is called once per device tick; release never '
              'sets the latch', floor=3)
-    chk.rule('C17.5', 'D', 'I/O offset 0 routes to set_value / get_value', floor=2)
+    chk.rule('C17.5', 'D', 'I/O offset 0, and only it, routes to set_value / get_value: every write path hands the byte written to '
+             'set_value, every read path returns what get_value returned', floor=2)
     facts = ctx.facts('default')
     prog = ctx.program('default')
     file = 'src/devices/joypad.rs'
@@ -95,58 +110,52 @@ def run(ctx, chk):
     rs = ipf.run(J + 'get_value', [me], st)
     sd, sa = fld('select_direction', 1), fld('select_action', 1)
     dirs, acts = fld('direction_state'), fld('action_state')
-    combos = set()
-    for r in rs:
-        if r.status != 'ok':
-            chk.fail('C17.2', 'get_value:diverge', 'get_value can diverge', file, None)
-            continue
-        env = r.state.env
-        d_ = env.const_of(sd)
-        a_ = env.const_of(sa)
-        if d_ is None or a_ is None:
-            chk.fail('C17.2', 'get_value:undecided', 'a get_value path is not decided by the two select flags', file, None)
-            continue
-        combos.add((d_, a_))
-        key = 'read:dir=%d,act=%d' % (d_, a_)
-        av = env.av(r.ret)
-        problems = []
-        # echo of select bits: selected group -> bit reads 0
-        for bit, s_ in ((4, d_), (5, a_)):
-            got = 1 if (av.m1 >> bit) & 1 else (0 if (av.m0 >> bit) & 1 else None)
-            if got != (0 if s_ else 1):
-                problems.append('bit %d reads %s with the group %sselected' % (bit, got, '' if s_ else 'de'))
-        # lines
-        for line in range(4):
-            groups = ([dirs] if d_ else []) + ([acts] if a_ else [])
-            # pressed in a selected group -> 0
-            for g in groups:
-                e2 = env.copy()
-                e2.assume(g, AV(8, 0, 0xf, 0, 1 << line))
-                a2 = e2.av(r.ret)
-                if not (a2.m0 >> line) & 1:
-                    problems.append('line %d does not read 0 when %s has it pressed' % (line, g[2].split('.')[-1]))
-            # nothing pressed in the selected groups -> 1
-            e3 = env.copy()
-            for g in groups:
-                e3.assume(g, AV(8, 0, 0xf, 1 << line, 0))
-            a3 = e3.av(r.ret)
-            if not (a3.m1 >> line) & 1:
-                problems.append('line %d does not read 1 when no selected button is pressed' % line)
-            # unselected groups must not matter
-            sup = set()
-            from ..support import support
-            for s2 in support(r.ret)[line]:
-                sup.add(s2[0][2].split('.')[-1])
-            allowed = set(g[2].split('.')[-1] for g in groups)
-            if not sup <= allowed:
-                problems.append('line %d depends on %s' % (line, sorted(sup - allowed)))
-        if problems:
-            chk.fail('C17.2', key, 'P1 read with directions %sselected, actions %sselected: %s'
-                     % ('' if d_ else 'not ', '' if a_ else 'not ', '; '.join(problems[:3])), file, None)
-        else:
-            chk.ok('C17.2', key, sample={'select_direction': d_, 'select_action': a_, 'value': fmt(r.ret)})
-    if combos != {(0, 0), (0, 1), (1, 0), (1, 1)}:
-        chk.fail('C17.2', 'get_value:combos', 'selection combinations covered by get_value: %s' % sorted(combos), file, None)
+    # the register value as one function of the four fields (the paths of get_value merged), compared bit by bit with the
+    # reference for each of the four selections - branches, masks or tables all give the same function
+    from .. import bvproof as _bv
+    from ..bdd import BDD as _BDD, BV as _BV, TermBV as _TermBV, Unsupported as _Uns
+    okp = [r for r in rs if r.status == 'ok' and r.ret is not None and T.is_int(r.ret)]
+    if len(okp) != len(rs) or not okp:
+        chk.fail('C17.2', 'get_value:diverge', 'get_value can diverge', file, None)
+    else:
+        try:
+            m = _BDD()
+            st0 = ipf.new_state()
+            ipf.arg_object(st0, 'joy')
+            conv = _TermBV(m, _bv._known(st0.env))      # field invariants only (button states stay within 4 bits)
+            G = _BV.const(m, 8, 0)
+            cover = 0
+            for r in okp:
+                _, _, Kg = _bv.setup(r.state.env, m, conv)
+                G = _BV.mux(m, Kg, conv(r.ret), G)
+                cover = m.OR(cover, Kg)
+            vsd, vsa, vd, va = conv(sd), conv(sa), conv(dirs), conv(acts)
+            for d_ in (0, 1):
+                for a_ in (0, 1):
+                    key = 'read:dir=%d,act=%d' % (d_, a_)
+                    Kc = m.AND(vsd.b[0] if d_ else m.NOT(vsd.b[0]), vsa.b[0] if a_ else m.NOT(vsa.b[0]))
+                    problems = []
+                    if m.AND(Kc, m.NOT(cover)) != 0:
+                        problems.append('no path of get_value covers this selection')
+                    for bit, s_ in ((4, d_), (5, a_)):
+                        want = 0 if s_ else 1
+                        if m.AND(Kc, G.b[bit] if want == 0 else m.NOT(G.b[bit])) != 0:
+                            problems.append('bit %d does not read %d with the group %sselected' % (bit, want, '' if s_ else 'de'))
+                    for line in range(4):
+                        low = m.OR(vd.b[line] if d_ else 0, va.b[line] if a_ else 0)      # pressed in a selected group
+                        diff = m.AND(Kc, m.XOR(G.b[line], m.NOT(low)))
+                        if diff != 0:
+                            w = m.witness(diff)
+                            problems.append('line %d reads %d with direction_state=%#x action_state=%#x' % (
+                                line, 1 if _holds17(m, G.b[line], w) else 0, w.get(dirs[2], 0), w.get(acts[2], 0)))
+                    if problems:
+                        chk.fail('C17.2', key, 'P1 read with directions %sselected, actions %sselected: %s'
+                                 % ('' if d_ else 'not ', '' if a_ else 'not ', '; '.join(problems[:3])), file, None)
+                    else:
+                        chk.ok('C17.2', key, sample={'select_direction': d_, 'select_action': a_,
+                                                     'lines': 'bit n = !(pressed n in a selected group), bits 4/5 echo the selection'})
+        except _Uns as e:
+            chk.error('C17.2 get_value: outside the bit-vector fragment: %s' % e.why)
     # ---- rule 3: edge detector
     # get_value as a function of the four fields (its own paths, merged), so that "the lines before / after" are what
     # the register really reads in the state before / after the operation - not two unrelated samples
@@ -276,16 +285,30 @@ def run(ctx, chk):
         io = ipr.arg_object(st, 'io')
         addr = S(16, 'addr')
         offs = set()
+        unrouted = None
         for r in ipr.run(fn, [io, addr] + extra, st):
-            if any(e[0] == 'call' and e[1] == target for e in r.state.events):
-                lo_ = O(16, 'and', addr, C(16, 0xff))
+            lo_ = O(16, 'and', addr, C(16, 0xff))
+            tcalls = [e for e in r.state.events if e[0] == 'call' and e[1] == target]
+            if not tcalls and r.status == 'ok' and r.state.env.possible(lo_, 0) and r.state.env.const_of(lo_) in (0, None):
+                from .. import bvproof as _bp3
+                e0 = r.state.env.copy()
+                if e0.assume_eq(lo_, 0) and absint.feasible(e0):
+                    # an access to offset 0 that never reaches the joypad (a write skipped as "nothing changed", ...)
+                    unrouted = 'a path for I/O offset 0 does not call %s' % target.split('::')[-1]
+            if tcalls and extra and not any(x == extra[0] for x in tcalls[-1][2]):
+                unrouted = unrouted or 'set_value is not given the byte written (%s)' % [fmt(x) for x in tcalls[-1][2] if T.is_int(x)]
+            if tcalls and not extra and r.status == 'ok' and r.ret != tcalls[-1][3]:
+                unrouted = unrouted or 'the byte read at offset 0 is %s, not what get_value returned' % fmt(r.ret)[:80]
+            if tcalls:
                 ov = r.state.env.const_of(lo_)
                 if ov is None:
                     from .. import bvproof as _bp2
                     ov = _bp2.const_diff_under(lo_, C(16, 0), r.state.env, 16)
                 offs.add(ov)
         key = 'route:' + target.split('::')[-1]
-        if offs == {0}:
+        if unrouted:
+            chk.fail('C17.5', key, unrouted, 'src/devices/io.rs', None)
+        elif offs == {0}:
             chk.ok('C17.5', key)
         else:
             chk.fail('C17.5', key, '%s is reached for I/O offsets %s, expected [0]' % (target, sorted(map(str, offs))),
